@@ -60,11 +60,11 @@ type c19Get struct {
 }
 
 type c19Repo struct {
-	Name    string   `json:"name"`
-	URL     string   `json:"url"`
-	User    string   `json:"user,omitempty"`
-	Pass    string   `json:"pass,omitempty"`
-	PassAll bool     `json:"pass_all,omitempty"`
+	Name    string `json:"name"`
+	URL     string `json:"url"`
+	User    string `json:"user,omitempty"`
+	Pass    string `json:"pass,omitempty"`
+	PassAll bool   `json:"pass_all,omitempty"`
 	// insecure_skip_tls_verify of the entry: no part of the property, but it travels next to the
 	// pass-credentials flag through findChartURL / the getter options (must not be mixed up with it)
 	Insecure bool     `json:"insecure,omitempty"`
@@ -135,13 +135,13 @@ type c19Split struct {
 type c19Obs struct {
 	Split    []c19Split        `json:"split,omitempty"`
 	ParseErr []string          `json:"-"`
-	Reqs    []c19Req          `json:"reqs"`
-	Failed  bool              `json:"failed"`
-	Panic   string            `json:"panic,omitempty"`
-	FirstOK bool              `json:"first_ok"`
-	Parse   map[string]c19URL `json:"-"`
-	Equal   [][2]string       `json:"-"`
-	Tab     map[string]string `json:"-"`
+	Reqs     []c19Req          `json:"reqs"`
+	Failed   bool              `json:"failed"`
+	Panic    string            `json:"panic,omitempty"`
+	FirstOK  bool              `json:"first_ok"`
+	Parse    map[string]c19URL `json:"-"`
+	Equal    [][2]string       `json:"-"`
+	Tab      map[string]string `json:"-"`
 }
 
 func (*c19) ID() string        { return "C19" }
@@ -493,7 +493,6 @@ func c19ChartRef(r *rand.Rand, scheme, host, path string) (string, string) {
 	return "abs-" + rel, s2 + "://" + h2 + p + file
 }
 
-
 // ---------------------------------------------------------------- URL strings for the splitter
 
 var (
@@ -503,10 +502,10 @@ var (
 	c19UNames   = []string{"repo.example", "Repo.Example", "REPO.EXAMPLE", "repo.example.", "h", "", "localhost", "127.0.0.1", "[::1]", "[::1", "::1]", "[::1]x",
 		"[2001:db8::1]", "[fe80::1%25en0]", "[::FFFF:1.2.3.4]", "[]", "a b", "a\\b", "a^b", "a<b>", "a\"b", "a|b", "a{b}", "a`b", "a_b~c", "a!$&'()*+,;=b", "\xc3\xa9.example",
 		"a:b", "a%2fb", "xn--e1afmkfd.test"}
-	c19UPorts   = []string{"", "", "", ":", ":80", ":443", ":8080", ":080", ":0", ":65536", ":8a", ":-1", ":80:90", "::80", ": 80", ":80 "}
-	c19UPaths   = []string{"", "", "/", "/charts", "/charts/", "/a/b/c-1.0.0.tgz", "/a:b", "//x", "///x", "/a b", "/@evil.test/x", "/a%20b", "/a%zz", "/\xc3\xa9", "/a\\b", "/*", "/a;b=c", "/..//./x"}
-	c19UQueries = []string{"", "", "", "?", "?a=1", "?a=b?c", "?x=/@evil.test", "?a=%41", "??", "?#"}
-	c19UFrags   = []string{"", "", "", "#", "#f", "#f\x01", "#a#b", "#/@h", "#%zz"}
+	c19UPorts    = []string{"", "", "", ":", ":80", ":443", ":8080", ":080", ":0", ":65536", ":8a", ":-1", ":80:90", "::80", ": 80", ":80 "}
+	c19UPaths    = []string{"", "", "/", "/charts", "/charts/", "/a/b/c-1.0.0.tgz", "/a:b", "//x", "///x", "/a b", "/@evil.test/x", "/a%20b", "/a%zz", "/\xc3\xa9", "/a\\b", "/*", "/a;b=c", "/..//./x"}
+	c19UQueries  = []string{"", "", "", "?", "?a=1", "?a=b?c", "?x=/@evil.test", "?a=%41", "??", "?#"}
+	c19UFrags    = []string{"", "", "", "#", "#f", "#f\x01", "#a#b", "#/@h", "#%zz"}
 	c19UOddities = []string{"*", "*#f", "", "#", "?", "a:b", "a/b:c", "a:b/c", ":", "://", "1a:b", "/a:b", "./a:b", "mailto:u@h.test", "http:x", "http:/x", "//h.test/p", "///h.test/p",
 		"////h.test", "http:////h.test", "cache_object:foo/bar", "h.test:8080/p", "h.test:8080", "localhost:80", "http://h.test\x7f/", "http://h.test/\n", "a\tb",
 		"http://h.test?x", "http://h.test#f", "http://h.test?", "http://@h.test", "http://:80", "http://:", "http://[::1]:80:90/", "http://[::1]]:80/", "http://[[::1]]/"}
@@ -814,11 +813,16 @@ func (*c19) Exhaustive(tier string) []any {
 			for _, sc := range c19USchemes {
 				for _, sep := range c19USeps {
 					for _, us := range c19UUsers {
-						for _, h := range c19UNames {
-							for _, pt := range c19UPorts {
-								all = append(all, sc+sep+us+h+pt+"/a:b?x=/@evil.test#f")
-							}
+						for _, hp := range []string{"h.test", "H.test:80", "[::1]:443", "h.test:", "h.test:8a", "a b"} {
+							all = append(all, sc+sep+us+hp+"/a:b?x=/@evil.test#f")
 						}
+					}
+				}
+			}
+			for _, us := range c19UUsers {
+				for _, h := range c19UNames {
+					for _, pt := range c19UPorts {
+						all = append(all, "https://"+us+h+pt+"/p", "//"+us+h+pt)
 					}
 				}
 			}
